@@ -89,12 +89,15 @@ def run_cases(ctx, cases, what="printers"):
     res = [None] * len(cases)
     for i, v in enumerate(parsed):
         if v is not None and v[0] != 0:
-            res[i] = (v[0], None, None, lines[i], None, True)
+            res[i] = (v[0], None, None, lines[i], None, True, None)
     for j, i in enumerate(idx):
         mo = mouts[j]
         mv = parse_val(mo) if mo.startswith("(") else mo
         # e_multi = searcher.multi_line_with_matcher(&matcher), as the harness put it into the model case
-        res[i] = (0, parsed[i][2], mv, lines[i], bool(parsed[i][1][0][1]), bool(parsed[i][3]))
+        # third component of a mode's real result: bytes written to the writer per file (not part of the model's result)
+        real = [m[:2] for m in parsed[i][2]]
+        written = [m[2] if len(m) > 2 else [] for m in parsed[i][2]]
+        res[i] = (0, real, mv, lines[i], bool(parsed[i][1][0][1]), bool(parsed[i][3]), written)
     return res
 
 
